@@ -485,6 +485,14 @@ def validate_traces(ctx, module, trace_path, invariants, prop_prefix, constants=
         m = re.search(r"^/\\ l0 = (\d+)", l0, re.M)
         lm = r.last_state_var(line_var)
         if not m:
+            # violated by an initial state (no "State n:" header) or interleaved output of several workers:
+            # any state of the counterexample carries l0
+            i = r.out.find("Error:")
+            m = re.search(r"/\\ l0 = (\d+)", r.out[i if i >= 0 else 0:])
+            if not lm or not str(lm).isdigit():
+                ml = re.findall(r"/\\ l = (\d+)", r.out[i if i >= 0 else 0:])
+                lm = ml[-1] if ml else lm
+        if not m:
             raise Infra("cannot locate scenario of counterexample:\n" + tail_errors(r.out))
         rel_start = int(m.group(1))
         # map the relative start (in the filtered file) back to the original span
